@@ -1,5 +1,7 @@
 CONSTANTS
   MCPlansFan <- MCPlansFanQuick
+  SuccessOnlyAtEnd = TRUE
+  RegisterAtomic = TRUE
   KeepFirstError = TRUE
   RecoverPerStage = TRUE
   FirstErrorWins = TRUE
